@@ -578,6 +578,21 @@ pub fn plugin_parse(mt_text: &str) -> LibResult<(Value, Value)> {
     ))
 }
 
+/// parse_mt with the text as the message payload (source = "payload") instead of a data field
+pub fn plugin_parse_payload(mt_text: &str) -> LibResult<(Value, Value)> {
+    let out = run_handler(
+        &swift_mt_message::plugin::Parse,
+        "parse_mt",
+        Value::String(mt_text.to_string()),
+        serde_json::json!({}),
+        serde_json::json!({"source":"payload","target":"dst"}),
+    )?;
+    Ok((
+        out.data.get("dst").cloned().unwrap_or(Value::Null),
+        out.metadata.get("dst").cloned().unwrap_or(Value::Null),
+    ))
+}
+
 /// publish_mt: JSON in data.src (must carry message_type) -> MT text
 pub fn plugin_publish(json_msg: &Value) -> LibResult<String> {
     let out = run_handler(
